@@ -294,11 +294,48 @@ func (w *World) execHostile(stepIdx int, st *Step) {
 		if base == nil {
 			return r.Bytes(20)
 		}
-		switch r.Intn(6) {
+		switch r.Intn(7) {
 		case 0:
 			return corruptBytes(r, h.requests[k])
 		case 1:
 			return r.Bytes(r.Range(0, 200))
+		case 2, 3:
+			// structure-aware corruption INSIDE the signed payload (it is decoded and validated before any signature is checked),
+			// including the optional members a valid sample does not have: present with empty, short, long and huge values
+			jwsStr, _ := base["signedData"].(string)
+			hd, p, sig, ok := splitJWS(jwsStr)
+			pv, perr := ref.Parse(p)
+			pm, isObj := pv.(map[string]any)
+			if !ok || perr != nil || !isObj {
+				return ref.JCS(corruptJSON(r, base, r.Range(1, 3)))
+			}
+			pm = ref.Clone(pm).(map[string]any)
+			sizes := []int{0, 1, int(w.Plan.Swarm.NonceSize) - 1, int(w.Plan.Swarm.NonceSize), int(w.Plan.Swarm.NonceSize) + 1, 2 * int(w.Plan.Swarm.NonceSize), 64, 3000}
+			blob := func() any {
+				n := core.Pick(r, sizes)
+				if n < 0 {
+					n = 0
+				}
+				if r.Chance(1, 6) {
+					return core.Pick(r, hostileScalars)
+				}
+				return ref.B64(r.Bytes(n))
+			}
+			switch r.Intn(3) {
+			case 0:
+				pm, _ = corruptJSON(r, pm, r.Range(1, 2)).(map[string]any)
+			case 1:
+				for _, km := range []string{"updateKey", "recoveryKey"} {
+					if j, isKey := pm[km].(map[string]any); isKey {
+						j[core.Pick(r, []string{"nonce", "nonce", "d", "alg", "kid", "x5c", "use", "key_ops"})] = blob()
+					}
+				}
+			default:
+				pm[core.Pick(r, []string{"anchorFrom", "anchorUntil", "anchorOrigin", "revealValue", "didSuffix", "deltaHash", "recoveryCommitment", "nonce"})] = blob()
+			}
+			out := ref.Clone(base).(map[string]any)
+			out["signedData"] = joinJWS(hd, ref.JCS(pm), sig)
+			return ref.JCS(out)
 		default:
 			return ref.JCS(corruptJSON(r, base, r.Range(1, 3)))
 		}
